@@ -707,6 +707,13 @@ pub fn drive_dec<T: Reg + Encode + Decode>(ctx: &mut Ctx, mem_tracking: bool) {
 					runs.push(json!({"be":"slice","st":[W::Mem(l).json()],"res":res,"v":v,"n":inp.len() - s.len(),"cnt":[],"used":[digits(used as u128, 8)]}));
 				}
 				runs.push(run_json::<T>("rec", &[W::Mem(usize::MAX)], &inp, 0));
+				// the public entry point takes the limit itself
+				if let Some(f) = MLF.with(|m| m.get()) {
+					for l in [u, u + 1, 1u128] {
+						let l = if l > usize::MAX as u128 { usize::MAX } else { l as usize };
+						runs.push(f(&inp, l, u));
+					}
+				}
 			},
 			_ => {},
 		}
@@ -735,6 +742,18 @@ pub fn drive_dec<T: Reg + Encode + Decode>(ctx: &mut Ctx, mem_tracking: bool) {
 		}
 		ctx.emit(&tn, Value::Object(m));
 	}
+}
+
+/// the `decode_with_mem_limit` entry point of a memory-tracking type (reachable only with the trait bound, so the type
+/// list hands it over as a function pointer); `u` is the usage the base run observed
+pub type MemLimitFn = fn(&[u8], usize, u128) -> Value;
+thread_local! { pub static MLF: std::cell::Cell<Option<MemLimitFn>> = std::cell::Cell::new(None); }
+pub fn mem_limit_entry<T: Reg + parity_scale_codec::DecodeWithMemTracking>(inp: &[u8], limit: usize, u: u128) -> Value {
+	use parity_scale_codec::DecodeWithMemLimit;
+	let mut s = inp;
+	let r = guarded(|| T::decode_with_mem_limit(&mut s, limit));
+	let (res, v) = res_json(&r);
+	json!({"be":"slice","st":[W::Mem(limit).json()],"res":res,"v":v,"n":inp.len() - s.len(),"cnt":[],"used":[digits(u, 8)],"entry":"decode_with_mem_limit"})
 }
 
 /// C19: the counting input driven directly, over an input that only records what it is asked for, so that a single
